@@ -136,6 +136,36 @@ pub fn run(ctx: &Ctx) -> i32 {
     });
     ctx.sample(json!({"family": fam, "case": "fmt0 tile=2x3 n=3 canvas=5x5 map=2x3 off=(-1,2) pat=3 op=1", "meaning": "RGBA, 3 tiles of 2x3, 5x5 canvas (logical 3x2 tiles), stored 2x3 map at tile offset (-1,2), tile words carry flip/rotate bits, opacities (128,200)"}));
 
+    // size in tiles = ceil(canvas / tile) over the whole 16-bit range of either operand (no images)
+    if ctx.wants_family("logical-size") {
+        let mut dims: Vec<u16> = (1..=70).collect();
+        dims.extend([255u16, 256, 257, 4095, 4096, 32767, 32768, 32769]);
+        dims.extend(65500..=65535u16);
+        let tiles: Vec<u16> = vec![1, 2, 3, 5, 7, 15, 16, 17, 255, 256, 257, 32767, 32768, 65534, 65535];
+        let cases: Vec<(u16, u16, bool)> = dims.iter().flat_map(|d| tiles.iter().flat_map(move |t| [(*d, *t, false), (*d, *t, true)])).collect();
+        ctx.family("logical-size", cases.len() as u64, "canvas extent in {1..70, 255..257, 4095, 4096, 32767..32769, 65500..65535} x tile extent in {1,2,3,5,7,15,16,17,255,256,257,32767,32768,65534,65535} on the x axis and on the y axis: width()/height(), tile offsets and lookups compared with the model (structure only, no images)", true);
+        let mut w = Want::structure_only();
+        w.tilemaps = true;
+        cases.par_iter().for_each(|(d, t, vertical)| {
+            let case = || format!("canvas={} tile={} axis={}", d, t, if *vertical { "y" } else { "x" });
+            if !ctx.wants("logical-size", &case) {
+                return;
+            }
+            let fmt = Fmt::Gray;
+            let (cw, chh, tw, th) = if *vertical { (2u16, *d, 2u16, *t) } else { (*d, 2, *t, 2) };
+            let mut f = gen::file(cw, chh, &fmt, &[10]);
+            let n = tw as usize * th as usize * 2;
+            let mut px = vec![0u8; n * 2];
+            for i in 0..n {
+                px[n * 2 / 2 + i] = if i % 2 == 0 { (i / 2 % 251) as u8 } else { 255 };
+            }
+            f.frames[0].push(Body::Tileset(tileset(0, 2, tw, th, px, "t")));
+            f.frames[0].push(Body::Layer(Layer::tilemap("map", 0)));
+            f.frames[0].push(tm_cel(0, 0, 0, 255, 2, 2, vec![1, 0, 1, 1]));
+            conform(ctx, "logical-size", &case, &f, &w);
+        });
+    }
+
     // non-tilemap cels / layers: tilemap() must be None
     if ctx.wants_family("none") {
         let cases = [0, 1, 2, 3];
